@@ -92,7 +92,7 @@ impl<'a> DeclVisitor for Vis<'a> {
     fn decl<T: V + VaryTransient>(&mut self) {
         self.visit::<T>();
     }
-    fn pair<W: V, R: V>(&mut self, _h: &str, _w: usize, _r: usize, _l: bool) {}
+    fn pair<W: V, R: V>(&mut self, _h: &str, _w: usize, _r: usize, _l: bool, _p: Vec<W>) {}
     fn ext<E1: V, E2: V>(&mut self, _n: usize) {}
 }
 
